@@ -143,6 +143,17 @@ def run(ctx: Ctx):
                 ctx.fail(cons + "#empty", g.loc(r), "a connection can be returned although the list "
                          "of usable peers is empty")
 
+    # "when none exists the not-routable error is raised": nothing else escapes route_request
+    from ..effects import effects_of
+    E_ = effects_of(model)
+    cons = "route_request:raises-only-NotRoutable"
+    rs = set(E_.raises(f))
+    ctx.inst(cons, sample=sorted(rs))
+    for e_ in sorted(rs - {"NotRoutable", "ANY", "UnicodeDecodeError"}):
+        ctx.fail(cons, f.loc(), f"route_request can raise {e_} ({'; '.join(E_.why(f, e_))}): a request "
+                 f"that cannot be routed fails with something else than the not-routable error")
+        break
+
     # ---------------- R2 selection --------------------------------------------------------
     ctx.rule("C10-R2", "the selection callback gets exactly the usable peers; otherwise the only "
                        "usable peer is taken", floor=2)
